@@ -26,7 +26,8 @@ let next_int () = int_of_string (next ())
 let nextz () = z_of_int (next_int ())
 
 let words = [| "?"; "dfsd"; "sd"; "nc"; "vg"; "sdn"; "dfr8"; "df24"; "gr"; "grr"; "dfp"; "vgi"; "n"; "lut"; "nolut";
-               "dfan"; "an"; "fl"; "fd"; "ol"; "od"; "nostrip"; "-"; "dfsdmeta"; "sdmeta"; "scale"; "strs"; "range"; "none" |]
+               "dfan"; "an"; "fl"; "fd"; "ol"; "od"; "nostrip"; "-"; "dfsdmeta"; "sdmeta"; "scale"; "strs"; "range"; "none";
+               "dfsdp"; "dfr8p"; "padok"; "dstrs"; "dname" |]
 let show_tok = function
   | M.TI z -> string_of_int (int_of_z z)
   | M.TH b -> hex_of_bytes b
@@ -44,6 +45,7 @@ let parse_ds () =
   let data = bytes_of_hex (next ()) in
   let scales = Array.make rank None in
   let strs = ref None and range = ref None in
+  let dstrs = Array.make rank None and dnames = Array.make rank [] in
   let hx s = if s = "_" then [] else bytes_of_hex s in
   let m = next () in
   if m <> "-" then
@@ -53,10 +55,16 @@ let parse_ds () =
                scales.(int_of_string (String.sub it 1 (eq - 1))) <- Some (bytes_of_hex (String.sub it (eq + 1) (String.length it - eq - 1)))
       | 't' -> (match String.split_on_char ';' (String.sub it 2 (String.length it - 2)) with
                 | [a; b; c] -> strs := Some ((hx a, hx b), hx c) | _ -> ())
+      | 'd' -> let eq = String.index it '=' in
+               (match String.split_on_char ';' (String.sub it (eq + 1) (String.length it - eq - 1)) with
+                | [a; b; c] -> dstrs.(int_of_string (String.sub it 1 (eq - 1))) <- Some ((hx a, hx b), hx c) | _ -> ())
+      | 'n' -> let eq = String.index it '=' in
+               dnames.(int_of_string (String.sub it 1 (eq - 1))) <- hx (String.sub it (eq + 1) (String.length it - eq - 1))
       | 'r' -> (match String.split_on_char ';' (String.sub it 2 (String.length it - 2)) with
                 | [a; b] -> range := Some (hx a, hx b) | _ -> ())
       | _ -> ()) (String.split_on_char ',' m);
-  { M.ds_dims = dims; ds_nt = nt; ds_data = data; ds_scales = Array.to_list scales; ds_strs = !strs; ds_range = !range }
+  { M.ds_dims = dims; ds_nt = nt; ds_data = data; ds_scales = Array.to_list scales; ds_strs = !strs; ds_range = !range;
+    ds_dstrs = Array.to_list dstrs; ds_dnames = Array.to_list dnames }
 
 let parse_im () =
   let x = nextz () in let y = nextz () in let nc = nextz () in let nt = nextz () in let il = nextz () in
@@ -157,14 +165,14 @@ let () =
         (match kind with
          | "sds" ->
            let w = next () in
-           let _pre = next () in let _edits = next () in
+           let _pre = next () in let _edits = next () in let _pad = next () in
            let n = next_int () in
            let l = List.init n (fun _ -> parse_ds ()) in
            let wz = z_of_int (match w with "dfsd" -> 1 | "sd" -> 2 | _ -> 3) in
            print_lines id (M.sds_views wz l)
          | "img" ->
            let w = next () in
-           let _pre = next () in let _edits = next () in
+           let _pre = next () in let _edits = next () in let _pad = next () in
            let ril = nextz () in
            let n = next_int () in
            let l = List.init n (fun _ -> parse_im ()) in
